@@ -199,6 +199,21 @@ def first_match_end(data, seps):
     return best
 
 
+def weak_until_check(d, seps, res):
+    if res[0] != 'ok' or res[1] == b'':
+        return None
+    r = res[1]
+    if not d.startswith(r):
+        return 'returned %r which is not a prefix of the pending data %r' % (r, d)
+    for s in seps:
+        if s and r.endswith(s):
+            start = len(r) - len(s)
+            e = first_match_end(r[:start], [x for x in seps if x])
+            if e is None:
+                return None
+    return 'readuntil returned %r: it does not end with a separator of %r that is the first one there' % (r, seps)
+
+
 def infix_free(seps):
     seps = [bytes(s) for s in seps]
     for a in seps:
@@ -335,9 +350,12 @@ class Oracle:
                     return None
                 return 'ValueError for a non-empty separator'
             if k != 'line' and not infix_free(seps):
-                # documented behaviour is only defined for separator sets where no separator contains another
+                # one separator contains another: which match is reported legitimately depends on chunking,
+                # but a result must still be the pending data up to the end of some separator occurrence, with
+                # no separator occurrence lying entirely in front of that occurrence
+                why = weak_until_check(d, seps, res)
                 self.resync(res)
-                return None
+                return why
             end = first_match_end(d, seps)
             if res[0] == 'raise':
                 if d == b'' and nx == res[1] and nx != SOFT:
